@@ -1,5 +1,6 @@
 (* C05 — copies are faithful and independent: case format, tie and specification. *)
 From Coq Require Import ZArith List Bool.
+From Coq Require String.
 Import ListNotations.
 From QCE Require Import Base.Prelude Core.Model Core.Run.
 From Gen Require Import Ident Classes.
@@ -37,7 +38,7 @@ Definition rel_type (o : oentry) : Z :=
 Definition zmin_l (d : Z) (l : list Z) : Z := match l with [] => d | x :: t => fold_left Z.min t x end.
 Definition same_entry (sa sb : Z) (a b : oentry) : bool :=
   (oe_cls a =? oe_cls b) && chans_eqb (oe_chans a) (oe_chans b) && (oe_d a =? oe_d b) && (oe_tag a =? oe_tag b)
-  && (rel_type a =? rel_type b) && (oe_refpos a =? oe_refpos b)
+  && (rel_type a =? rel_type b) && (oe_refpos a =? oe_refpos b) && String.eqb (oe_sig a) (oe_sig b)
   && (oe_s a - sa =? oe_s b - sb) && (oe_e a - sa =? oe_e b - sb).
 Fixpoint same_seq (sa sb : Z) (a b : list oentry) : bool :=
   match a, b with
